@@ -225,6 +225,26 @@ func genC06(e *emitter, tier string, seed uint64) {
 				}
 			}
 		}
+		// ---- SINGLE without a matching output (more inputs than outputs, checked index past the last output): FORKID signs
+		//      a zero hashOutputs, legacy signs the constant 1 — fresh signatures over the independent model's digest
+		if sh == 0 {
+			k := keys[2]
+			lock := append(rawPush(k.pubC), 0xac)
+			for _, shape := range [][2]int{{3, 1}, {2, 0}, {3, 2}} {
+				txs := genSigTx(r, shape[0], shape[1], false)
+				for idx2 := 0; idx2 < shape[0]; idx2++ {
+					for _, ht := range []byte{0x43, 0xc3, 0x03, 0x83, 0x41, 0x42} {
+						fl := fForkID
+						if ht&0x40 == 0 {
+							fl = 0
+						}
+						sig := signFor(txs, idx2, lock, sats, ht, k, false)
+						note("single-no-output", ixExecTx(e, fl, rawPush(sig), lock, txs, idx2, sats))
+						note("single-no-output", ixExecTx(e, fl|fAfterGenesis|fNullFail, rawPush(sig), lock, txs, idx2, sats))
+					}
+				}
+			}
+		}
 		// ---- legacy signature removal: the script code loses the canonical pushes of exactly the signature — not pushes that
 		//      merely contain it. The signature is made over the code without the embedding push, then embedded.
 		if sh == 0 {
